@@ -82,19 +82,14 @@ def check_glob(args):
     fails = []
     x = z3.String("path")
     for name, a, b in (("missed", narrow, code), ("overmatch", code, wide)):
-        s = z3.Solver()
-        s.set("timeout", TIMEOUT_MS[0])
-        s.add(z3.InRe(x, sigma_star), z3.InRe(x, a), z3.Not(z3.InRe(x, b)))
-        r = s.check()
-        if r == z3.sat:
-            w = s.model()[x]
-            w = w.as_string() if w is not None else ""
-            w = re.sub(r"\\u\{([0-9a-fA-F]+)\}", lambda m: chr(int(m.group(1), 16)), w)
+        from pyvc import rxempty
+        verdict, w = rxempty.decide([(sigma_star, True), (a, True), (b, False)], TIMEOUT_MS[0])
+        if verdict == "sat":
             real = bool(item.matches(w))
             expected = name == "missed"
             fails.append({"glob": glob, "kind": name, "path": w, "real_matches": real, "regex": pat.pattern,
                           "replayed": real != expected})
-        elif r == z3.unknown:
+        elif verdict == "unknown":
             fails.append({"glob": glob, "kind": name, "unknown": True})
     return {"glob": glob, "fails": fails}
 
@@ -116,18 +111,13 @@ def check_table(globs):
     fails = []
     x = z3.String("path")
     for name, a, b in (("missed", narrow, code), ("overmatch", code, wide)):
-        s = z3.Solver()
-        s.set("timeout", TIMEOUT_MS[0])
-        s.add(z3.InRe(x, a), z3.Not(z3.InRe(x, b)))
-        r = s.check()
-        if r == z3.sat:
-            w = s.model()[x]
-            w = w.as_string() if w is not None else ""
-            w = re.sub(r"\\u\{([0-9a-fA-F]+)\}", lambda m: chr(int(m.group(1), 16)), w)
+        from pyvc import rxempty
+        verdict, w = rxempty.decide([(a, True), (b, False)], TIMEOUT_MS[0])
+        if verdict == "sat":
             real = bool(item.matches(w))
             fails.append({"glob": list(globs), "kind": name, "path": w, "real_matches": real, "regex": pat.pattern,
                           "replayed": real != (name == "missed")})
-        elif r == z3.unknown:
+        elif verdict == "unknown":
             fails.append({"glob": list(globs), "kind": name, "unknown": True})
     return {"glob": list(globs), "fails": fails}
 
